@@ -4,6 +4,9 @@ mod witness;
 mod run;
 mod gen;
 mod c16;
+mod extract;
+mod c01;
+mod c02;
 mod tables;
 
 fn main() {
@@ -42,6 +45,8 @@ fn main() {
             let params = run::Params { tier_thorough: tier == "thorough", seed };
             let mut r = match id.as_str() {
                 "C16" => c16::run(&params),
+                "C01" => c01::run(&params),
+                "C02" => c02::run(&params),
                 _ => { eprintln!("unknown property {}", id); std::process::exit(2); }
             };
             // the witnesses of this property run as part of every check (regression corpus)
